@@ -259,10 +259,10 @@ REGISTRY = {
     ),
     "C06": dict(
         jobs=lambda tier, seed: __import__("vf.props.implicit", fromlist=["x"]).configs(tier),
-        job_of_config=_job_of("vf.props.implicit", "c06"),
+        job_of_config=lambda cfg: ("vf.props.implicit", "c06_typed" if cfg.get("_job") == "typed" else "c06"),
         technique="real implicit-mode block_diagonalize (operator_to_BlockSeries(implicit=True), ComplementProjector, solve_sylvester_direct grouping / pivots / both orientations, direct_greens_function, "
         "LinearOperator series wiring) executed with exactly representable numeric H_0 and eigenvectors and a SYMBOLIC perturbation; scipy's sparse LU is stubbed by exact rational elimination; "
-        "z3 decides every explicit block and every block touching the implicit subspace (applied to the identity) != complete-basis result embedded by the complement basis; sat models are replayed with the REAL sparse LU in floats",
+        "z3 decides every explicit block and every block touching the implicit subspace (applied to the identity) != complete-basis result embedded by the complement basis; sat models are replayed with the REAL sparse LU in floats; typed twin (concrete, declared): every configuration also runs with complex128 / float64 numpy and scipy.sparse inputs and the real sparse LU at one dyadic point, implicit == embedded complete-basis result",
         bounds={
             "quick": "dim 3-4, one or two explicit blocks (sizes 1-2), real orthogonal / permutation / Hadamard and complex-unitary (dyadic) eigenbases, degenerate explicit level, dense and sparse H_0, "
             "(R,L) pair form in non-Hermitian mode, orders <=3",
